@@ -47,6 +47,9 @@ def parse_ops(line):
         if t == "S":
             ops.append(("S", parse_L(toks[i + 1]), parse_L(toks[i + 2])))
             i += 3
+        elif t == "N":
+            ops.append(("N", parse_L(toks[i + 1]), parse_L(toks[i + 2]), parse_L(toks[i + 3])))
+            i += 4
         else:
             ops.append((t, parse_L(toks[i + 1])))
             i += 2
@@ -71,8 +74,12 @@ def spec_run(ops):
     steps = []
     for o in ops:
         out = "-"
-        if o[0] == "S":
-            k, m = o[1], unescape(o[2])
+        if o[0] in ("S", "N"):
+            k, m = (o[1], unescape(o[2])) if o[0] == "S" else (o[2], unescape(o[3]))     # N = the same set <count> times
+            if o[0] == "N" and o[1][0] == 0:
+                es = " ".join("%s=%s" % (L(k2), L(val[k2])) for k2 in keys)
+                steps.append("- %s %s [%s]" % ("d1" if dirty else "d0", L(title), es))
+                continue
             if k not in val:
                 keys.append(k)
             val[k] = m
@@ -148,6 +155,10 @@ class C07(PropertyCheck):
                 else:
                     h.append(("T", tuple(rng.choice((65, 66, 0x3042)) for _ in range(rng.randint(0, 4)))))
             cases.append(Case(render(h), "random-history"))
+        # very long histories of the same call: the dirty flag is set after ANY set - also the 65536th (seeded change C07-6 counted edits in a u16)
+        for n in (1, 255, 256, 65535, 65536, 65537, 131072):
+            cases.append(Case(render([("N", (n,), ka, (X,)), ("H", ka)]), "long-repetition"))
+            cases.append(Case(render([("S", kb, ()), ("N", (n,), kb, (BS, LN)), ("G", kb)]), "long-repetition"))
         # "serialized order" (observe_at of the property): after a history, serialize -> from_bytes must list exactly the surviving
         # keys in order of first insertion with the last value set - also when several keys hold the SAME text (seeded change C07-3
         # pooled equal messages in serialize and lost the later key); few distinct messages on purpose
@@ -170,7 +181,7 @@ class C07(PropertyCheck):
     def nontrivial(self, case, impl_out):
         if case.line.startswith("txth "):
             return len(c06.hist_expected(c06.parse_hist(case.line)[2])[1]) >= 2
-        ops = parse_ops(case.line)
+        ops = [(("S", o[2], o[3]) if o[0] == "N" else o) for o in parse_ops(case.line)]
         alive = set()
         for o in ops:
             if o[0] != "S" and o[0] != "T" and o[1] in alive:
